@@ -45,7 +45,7 @@ SPECS['C05'] = {
     'technique': 'exhaustive single-fault enumeration (every bit of nonce/AAD/ciphertext/tag, every truncation, one-byte extensions) x every 2-cut chunking of the streaming decryptors, on the real code',
     'claim': 'For every sealed message of the grid, every single-bit modification of nonce, AAD, ciphertext and tag, every truncation and the one-byte extensions are reported as failure by the one-shot call or by *_decrypt_finish, for every way of splitting the stream in two; the untouched message opens in every chunking.',
     'trusted': 'the library\'s own encryptors produce the sealed messages (their conformance is C04); exact-size heap inputs + ASan catch over-reads',
-    'rule': 'schemes {SM4-GCM, AES-GCM, SM4-CCM one-shot; SM4-GCM, SM4-CBC+SM3-HMAC, SM4-CTR+SM3-HMAC streaming} x message lengths {0,1,17} (thorough {0,1,15,16,17,33}) x AAD {0,1,20} x tag lengths (quick 12,16 / CCM 4,10,16; thorough all) x nonce lengths (thorough); per sealed message: all bit flips of every field, all prefixes, 3 one-byte extensions at both ends, AAD +-1 byte; streaming: every 2-cut. distinct = (scheme, parameters, fault, cut); every fault is non-trivial (expected verdict: reject).',
+    'rule': 'big-aad block: AAD lengths {0xfeff,0xff00,0xff01,0xffff,0x10000,0x10001} x 4 schemes (untouched, 64 end-of-AAD bit flips, +-1 byte, length-prefix confusion); schemes {SM4-GCM, AES-GCM, SM4-CCM one-shot; SM4-GCM, SM4-CBC+SM3-HMAC, SM4-CTR+SM3-HMAC streaming} x message lengths {0,1,17} (thorough {0,1,15,16,17,33}) x AAD {0,1,20} x tag lengths (quick 12,16 / CCM 4,10,16; thorough all) x nonce lengths (thorough); per sealed message: all bit flips of every field, all prefixes, 3 one-byte extensions at both ends, AAD +-1 byte; streaming: every 2-cut. distinct = (scheme, parameters, fault, cut); every fault is non-trivial (expected verdict: reject).',
     'bound': {'quick': '1 fault, 2 chunks', 'thorough': '1 fault, 2 chunks, full parameter grid'},
     'assumptions': ['one key/nonce/plaintext per scheme', 'multi-bit forgeries are out of scope'],
     'quick': [J('c05', 'asan', srcs=MREF), J('c05', 'fast', srcs=MREF)],
